@@ -210,6 +210,10 @@ func (s *TemporalStore) GetFactsDuring(query ast.Atom, interval ast.Interval, fn
 
 	start := GetStartTime(interval)
 	end := GetEndTime(interval)
+	if start > end {
+		// A range that ends before it starts contains no instant.
+		return nil
+	}
 
 	for hash, tree := range predMap {
 		atom := s.atoms[hash]
